@@ -340,17 +340,21 @@ def _find_witness(actual, expected, argspecs, names, lane_bits, seed, env_ok, wa
     probes = list(_dep_diff_envs(actual, expected, argspecs)) + probes
     if EXTRA_POINTS[0] and names:
         ex = []
-        for pt in EXTRA_POINTS[0]:
+        pts = EXTRA_POINTS[0]
+        nl = max([b // lb for (b, lb, dom) in argspecs if lb] + [1])
+        for c0 in range(0, len(pts), nl):
+            chunk = pts[c0:c0 + nl]
+            chunk = chunk + [chunk[0]] * (nl - len(chunk))     # one point per lane
             args = []
             for ai, (b, lb, dom) in enumerate(argspecs):
                 nm = names[ai] if ai < len(names) else None
-                if nm not in pt:
+                if nm not in chunk[0]:
                     args.append(0)
                     continue
-                v = pt[nm]
                 if lb:
-                    v &= (1 << lb) - 1
-                    v = sum(v << (l * lb) for l in range(b // lb))
+                    v = sum((chunk[l % nl][nm] & ((1 << lb) - 1)) << (l * lb) for l in range(b // lb))
+                else:
+                    v = chunk[0][nm]
                 if dom:
                     v = dom(v)
                 args.append(v)
